@@ -32,7 +32,7 @@ func (c *Chan) sendReady() bool {
 		return true // will panic
 	}
 	if c.cap == 0 {
-		return len(c.buf) == 0 && c.waitingRecv() 
+		return len(c.buf) == 0 && c.waitingRecv()
 	}
 	return len(c.buf) < c.cap
 }
